@@ -14,7 +14,7 @@ package codec
 //             that field, so maximal 10-byte varints - where the length arithmetic is - are
 //             inside the bound; group/fixed wire types are covered by the generic cut only)
 
-//zz:harness unwind=40 panic=violation:D3.GetRawProtoField.nopanic maxalloc=16
+//zz:harness unwind=40 panic=violation:D3.GetRawProtoField.nopanic maxalloc=16 param.generic@thorough=7
 //zz:reach D3.get.found D3.get.err
 func ZZ_C19_D3_GetRawProtoField_generic() {
 	n := zzConcrete(zzInt("n"), 0, zzParam("generic", 5))
@@ -50,7 +50,7 @@ func ZZ_C19_D3_GetRawProtoField_deep() {
 	zzAssert("D3.get.len-within-buffer", len(out) <= len(buf))
 }
 
-//zz:harness unwind=40 panic=violation:D3.NullifyProtoField.nopanic maxalloc=16
+//zz:harness unwind=40 panic=violation:D3.NullifyProtoField.nopanic maxalloc=16 param.generic@thorough=6
 //zz:reach D3.null.ok D3.null.err
 func ZZ_C19_D3_NullifyProtoField_generic() {
 	n := zzConcrete(zzInt("n"), 0, zzParam("generic", 5))
@@ -69,10 +69,10 @@ func ZZ_C19_D3_NullifyProtoField_generic() {
 	zzAssert("D3.null.removed", err2 != nil)
 }
 
-//zz:harness unwind=40 panic=violation:D3.NullifyProtoField.nopanic maxalloc=16
+//zz:harness unwind=40 panic=violation:D3.NullifyProtoField.nopanic maxalloc=16 param.deepnull@thorough=8
 //zz:reach D3.null.ok D3.null.err
 func ZZ_C19_D3_NullifyProtoField_deep() {
-	n := zzConcrete(zzInt("n"), 0, zzParam("deepnull", 8))
+	n := zzConcrete(zzInt("n"), 0, zzParam("deepnull", 6))
 	buf := zzBytes("buf", n)
 	field := zzInt("field")
 	zzAssume(field >= 1 && field <= 2)
